@@ -198,7 +198,7 @@ def drain(o, fam):
 
 def main():
     W = Worker('C10', RULE, assumptions=[
-        'allowlist of read-only protocol calls: ' + ', '.join(sorted(spies.READONLY_EVENTS)),
+        'allowlist of read-only protocol calls: ' + ', '.join(sorted(ALLOWED_EVENTS)) + ' (bool = __bool__ asked by a user-placed validator predicate; the checking code\'s own truth tests are logged as truth-test and not allowed)',
         'user __instancecheck__ side effects are the user\'s'])
     quick = W.quick
     depth = 3 if quick else 5
